@@ -194,7 +194,9 @@ impl Scenario {
             Mode::FailAt { k, kind } => (*k, false, Some(*kind)),
             _ => (usize::MAX, false, None),
         };
-        let budget = (self.trace.len() + 50) * 1000;
+        // 1000x the fault-free length, plus room for conserve's walk down the band numbers
+        // (previous_existing_band probes one id at a time: linear in the band id, not a loop)
+        let budget = (self.trace.len() + 50) * 1000 + 30 * (self.new_band_id() as usize + 2);
         let ic = Icept::with_budget(&arch, mode, seed, budget);
         let outcome = cs::backup(ic.transport(1), self.src(), self.opts, &[], None);
         let log = ic.log();
